@@ -107,7 +107,41 @@ fn render_cell(c: &Cell, s: &mut String) {
     }
 }
 
+/// Independent of the interpreter's own meter: what fetch_and_run really did since the last
+/// `verif_watch_take`. Sampled at the start of every executed instruction, wherever it runs
+/// (run, next, eval, and the build-time runs of meta blocks and immediate words).
+#[derive(Clone, Default, Debug, PartialEq)]
+pub struct VerifWatch {
+    /// instructions that got past the instruction-limit check
+    pub insns: u64,
+    /// largest total data-stack length seen (hidden items included)
+    pub max_stack: usize,
+    /// largest heap length seen
+    pub max_heap: usize,
+}
+
+impl VerifWatch {
+    #[inline]
+    pub(crate) fn on_insn(&mut self, stack_len: usize, heap_len: usize) {
+        self.insns += 1;
+        if stack_len > self.max_stack {
+            self.max_stack = stack_len;
+        }
+        if heap_len > self.max_heap {
+            self.max_heap = heap_len;
+        }
+    }
+}
+
 impl State {
+    /// read and reset the watch; the current lengths are folded in first
+    pub fn verif_watch_take(&mut self) -> VerifWatch {
+        let mut w = std::mem::take(&mut self.verif_watch);
+        w.max_stack = w.max_stack.max(self.data_stack.len());
+        w.max_heap = w.max_heap.max(self.heap.len());
+        w
+    }
+
     pub fn verif_dump(&self) -> VerifDump {
         VerifDump {
             ip: self.ctx.ip,
